@@ -295,8 +295,15 @@ def spliceOp (j : Json) : Except String Res := do
     | _ => false
   let totalItems := (sources.map fun s => match s.page with | some l => l.length | none => 0).foldl (· + ·) 0
   let endOk := !noSkips || !endedI || deliveredH == totalItems
+  -- a position asked by several callers at once: everyone got the lone asker's answer
+  let agreeOk := rounds.all fun rd => match rd with
+    | Json.arr parts => match parts[0]? with
+      | some (Json.arr tags) => tags[0]? != some (Json.str "DIVERGED")
+      | _ => true
+    | _ => true
   pure { model := Json.arr out, preds := [("short_delivery_ends_feed", shortOk), ("same_position_same_answer", againOk),
-                                          ("ends_only_when_all_sources_are_exhausted", endOk)],
+                                          ("ends_only_when_all_sources_are_exhausted", endOk),
+                                          ("concurrent_askers_agree", agreeOk)],
          nontrivial := total ≥ 3 && sources.length ≥ 2 }
 
 end Ops
